@@ -296,7 +296,8 @@ func fetchErrResp(req *kmsg.FetchRequest, code int16, top bool) kmsg.Response {
 		resp.ErrorCode = code
 		return resp
 	}
-	resp.SessionID = req.SessionID
+	// SessionID stays 0: the injected answer does not create or continue a fetch session
+	// (claiming the request's session id would desynchronise client and broker sessions).
 	for _, t := range req.Topics {
 		rt := kmsg.NewFetchResponseTopic()
 		rt.Topic = t.Topic
@@ -338,6 +339,37 @@ func RunCons(e *bubble.Env, p ConsPlan, extra ...kgo.Opt) *ConsObs {
 		AfterClusterStart(e.Cluster)
 	}
 	if os.Getenv("VERIF_DEBUG") != "" {
+		e.Net.KeepFrames()
+		e.Net.OnReq = func(ri *bubble.ReqInfo) {
+			if ri.Key != 1 || len(ri.Frame) < 14 {
+				return
+			}
+			req := kmsg.NewPtrFetchRequest()
+			req.Version = ri.Version
+			// request header: size(4) key(2) version(2) corr(4) clientid(nullable string) [tags]
+			b := ri.Frame[12:]
+			cl := int(int16(binary.BigEndian.Uint16(b)))
+			b = b[2:]
+			if cl > 0 {
+				b = b[cl:]
+			}
+			if req.IsFlexible() {
+				b = b[1:]
+			}
+			if req.ReadFrom(b) != nil {
+				return
+			}
+			var parts, forgot []string
+			for _, t := range req.Topics {
+				for _, p := range t.Partitions {
+					parts = append(parts, fmt.Sprintf("%x/%d@%d", t.TopicID[:1], p.Partition, p.FetchOffset))
+				}
+			}
+			for _, t := range req.ForgottenTopics {
+				forgot = append(forgot, fmt.Sprintf("%x/%v", t.TopicID[:1], t.Partitions))
+			}
+			e.Log.Add("FETCH-req", int64(req.SessionID), fmt.Sprintf("conn=%d epoch=%d parts=%v forgot=%v", ri.Conn, req.SessionEpoch, parts, forgot), nil, 0, 0)
+		}
 		e.Net.OnResp = func(ri *bubble.ReqInfo, body []byte) {
 			if ri.Key != 1 {
 				return
@@ -490,6 +522,9 @@ func RunCons(e *bubble.Env, p ConsPlan, extra ...kgo.Opt) *ConsObs {
 	}
 
 	for _, s := range p.Steps {
+		if spin, _ := e.Net.Spinning(); spin {
+			return o
+		}
 		if s.Delay > 0 {
 			time.Sleep(s.Delay)
 		}
@@ -607,6 +642,9 @@ func RunCons(e *bubble.Env, p ConsPlan, extra ...kgo.Opt) *ConsObs {
 		}
 		cl.ResumeFetchPartitions(map[string][]int32{t: ps})
 	}
+	if spin, _ := e.Net.Spinning(); spin {
+		return o
+	}
 	// Transactions left open are aborted by the broker once their timeout passes; let that
 	// happen before the ground truth is taken, and re-take it until the log is stable.
 	if p.NTxn > 0 {
@@ -621,6 +659,9 @@ func RunCons(e *bubble.Env, p ConsPlan, extra ...kgo.Opt) *ConsObs {
 				tp := TP{t, pi}
 				recs, hwm, err := e.ReadLog(raw, t, pi, 0)
 				if err != nil {
+					if spin, _ := e.Net.Spinning(); spin {
+						return o
+					}
 					panic(fmt.Sprintf("VERIF-INFRA: raw log read %s: %v", tp, err))
 				}
 				o.Truth[tp], o.HWM[tp] = recs, hwm
@@ -640,6 +681,9 @@ func RunCons(e *bubble.Env, p ConsPlan, extra ...kgo.Opt) *ConsObs {
 		o.Drained = false
 		deadline := time.Now().Add(Bound)
 		for time.Now().Before(deadline) {
+			if spin, _ := e.Net.Spinning(); spin {
+				return o
+			}
 			done := true
 			for tp, want := range expectLast {
 				if got, ok := lastOff[tp]; !ok || got < want {
@@ -662,6 +706,9 @@ func RunCons(e *bubble.Env, p ConsPlan, extra ...kgo.Opt) *ConsObs {
 			for pi := int32(0); pi < p.Parts[ti]; pi++ {
 				_, hwm, err := e.ReadLog(raw, t, pi, 0)
 				if err != nil {
+					if spin, _ := e.Net.Spinning(); spin {
+						return o
+					}
 					panic(fmt.Sprintf("VERIF-INFRA: raw log read: %v", err))
 				}
 				after += hwm
